@@ -280,7 +280,7 @@ Qed.
 Theorem api_solve_dims s d r : Inv_dims s -> answer_dims (a_p s) r -> Inv_dims (fst (api_solve s d r)).
 Proof.
   intros I (R1 & R2 & R3). unfold api_solve.
-  destruct (match a_basis s, a_cache s with Some _, Some _ => (negb d || a_factorok s)%bool | _, _ => false end); [exact I|].
+  destruct (match a_basis s, a_cache s with Some _, Some _ => a_factorok s | _, _ => false end); [exact I|].
   assert (G : Inv_dims {| a_p := a_p s; a_basis := Some (an_basis r);
                           a_cache := if (an_status r =? ST_OPTIMAL)%Z then Some (an_sol r) else None;
                           a_qstatus := an_status r; a_factorok := true; a_rn := an_rn r |}).
@@ -295,7 +295,7 @@ Qed.
 Theorem solve_never_size_error s d r : Inv_dims s -> snd (api_solve s d r) = false.
 Proof.
   intros [A _]. unfold api_solve.
-  destruct (match a_basis s, a_cache s with Some _, Some _ => (negb d || a_factorok s)%bool | _, _ => false end); [reflexivity|].
+  destruct (match a_basis s, a_cache s with Some _, Some _ => a_factorok s | _, _ => false end); [reflexivity|].
   destruct (a_basis s) as [b|] eqn:B; [|reflexivity].
   destruct (A b eq_refl) as [A1 A2]. unfold dims_ok_b. rewrite A1, A2, !Nat.eqb_refl. reflexivity.
 Qed.
@@ -506,7 +506,7 @@ Proof.
   intros D I H. destruct o; simpl in *.
   - apply api_edit_cache; assumption.
   - unfold api_solve.
-    destruct (match a_basis s, a_cache s with Some _, Some _ => (negb dual || a_factorok s)%bool | _, _ => false end); [exact I|].
+    destruct (match a_basis s, a_cache s with Some _, Some _ => a_factorok s | _, _ => false end); [exact I|].
     assert (G : Inv_cache M {| a_p := a_p s; a_basis := Some (an_basis r);
                                a_cache := if (an_status r =? ST_OPTIMAL)%Z then Some (an_sol r) else None;
                                a_qstatus := an_status r; a_factorok := true; a_rn := an_rn r |}).
